@@ -369,6 +369,10 @@ let c13_prim_chain data chunks eof fail scope script =
           if N.ltb (N.sub mx i) c then (parts := "ERR" :: !parts; stop := true)
           else (frames := (N0, c) :: !frames; lims := c :: !lims; parts := "sub" :: !parts)
         | 'u', _ :: rest -> frames := rest; lims := List.tl !lims; parts := "up" :: !parts
+        | 'U', (ci, _) :: (pi, pmx) :: rest ->
+          (* UpdateIndexFromScoped: dr.i += other.i (uint64) *)
+          let i' = N.modulo (N.add pi ci) (N.pow (n_of_int 2) (n_of_int 64)) in
+          frames := (i', pmx) :: rest; lims := List.tl !lims; parts := ("up" ^ hn i') :: !parts
         | 'r', (i, mx) :: rest ->
           (match dr_read_io_chain !u !lims i mx (arg ()) with
            | OK (((bs, u'), lims'), i') ->
